@@ -118,6 +118,25 @@ Theorem unsubscribed_on_every_path : forall ncb k T arr,
   (r_subscribed r = true <-> (forall e, k <> FMarshal e) /\ (forall e, k <> FSubscribe e)).
 Proof. exact unsubscribed_on_every_path_pf. Qed.
 
+(* ---- when the choice of select is open (the claimed-partial part, made precise): a message
+   and the timer ready within W of each other, including a deadline that expires and messages that
+   queue up while slow extension callbacks (cbd each) run.  Every result [wait_nd] allows is:
+   the timeout error after handling some pre-responses each as what it is, or the FIRST message
+   that is not a pre-response after handling all pre-responses before it - in both cases the
+   callbacks are exactly those of the pre-responses handled.  A pre-response is never returned as
+   if it were the response, and no message is skipped.  The deterministic model is one of them. ---- *)
+Theorem race_outcomes : forall W cbd ncb arr now dl r,
+  In r (wait_nd W cbd ncb now dl arr) ->
+  exists pre rest,
+    arr = pre ++ rest /\ Forall (fun a => is_pre (snd a) = true) pre /\ l_cbs r = notes ncb pre /\
+    (l_out r = OTimeout \/
+     exists t0 p post, rest = (t0, p) :: post /\ is_pre p = false /\ l_out r = OResponse p).
+Proof. exact nd_outcomes_pf. Qed.
+
+Theorem tie_rule_is_allowed : forall W ncb arr now dl,
+  0 <= W -> In (wait ncb now dl arr) (wait_nd W 0 ncb now dl arr).
+Proof. exact det_in_nd_pf. Qed.
+
 (* the payload the service writes in Request.Timeout, `timeout:"<decimal ms>"`, is a valid
    announcement of ms milliseconds for every ms that fits a Duration *)
 Theorem service_format_understood : forall ms : N,
@@ -165,3 +184,13 @@ Example publish_failure_releases :
   /\ res_error (OInternal (FSubscribe EResNil)) = Some (code_internal, prefix_internal ++ panic_text)
   /\ res_error (OInternal (FMarshal (ELazy [106; 58; 32]%N EResNil))) = Some (code_internal, prefix_internal ++ panic_text).
 Proof. repeat split; vm_compute; reflexivity. Qed.
+
+(* a 40 ms announcement whose callback blocks 200 ms: the new deadline (80) expires and a second
+   announcement (at 120) queues up meanwhile; at 240 both are ready: timeout, or the announcement
+   is handled (deadline 240 + 300) and the queued response is returned at 440 *)
+Example slow_callback_race :
+  map (fun r => (l_out r, l_cbs r, l_time r))
+      (wait_nd (ms 40) (ms 200) 1 0 (ms 200) [(ms 40, timeout_payload 40); (ms 120, ex_pre1); (ms 160, ex_res1)])
+  = [(OTimeout, [(0%nat, ms 40)], ms 240);
+     (OResponse ex_res1, [(0%nat, ms 40); (0%nat, ms 300)], ms 440)].
+Proof. vm_compute. reflexivity. Qed.
